@@ -30,6 +30,7 @@ import anyio.lowlevel  # noqa: E402
 
 from .aio_loop import SimDeadlock, SimEventLoop, SimStepLimit  # noqa: E402
 
+warnings.filterwarnings("ignore", message="coroutine .* was never awaited")
 HORIZON = 1.0e7
 
 # ---------------------------------------------------------------------------------------
